@@ -22,3 +22,27 @@ Example C20_tie_dwt_instance : in_listb [5; -3; 0; 2; 5] small_lists = true /\
   jpeg2000_wavelet_Forward53_1DWithParity [100; 101; 103; 90; 80; 7; 9] true = Some (D.fwd53 true [100; 101; 103; 90; 80; 7; 9]) /\
   jpeg2000_wavelet_Forward53_1DWithParity [] false = None.
 Proof. vm_compute. repeat split. Qed.
+
+(* GENERAL: for every list (any length below 2^31, which is what Go's int32 index arithmetic in dwt53.go can address)
+   of samples in [-2^28, 2^28) the translated Go functions return exactly the model's transforms, both parities, both
+   directions; and they panic (None) exactly on the input dwt1d_panics marks.  Proved by loop invariants over the four
+   forward and two inverse loops of the translation (Tie/DwtTie*.v), incl. the no-overflow argument for int32. *)
+From V Require Import Tie.DwtTiePartial.
+
+Theorem C20_tie_dwt53_1d : forall even x, Forall (fun v => - 2 ^ 28 <= v < 2 ^ 28) x ->
+  D.dwt1d_panics even x = false -> zlen x < 2 ^ 31 ->
+  jpeg2000_wavelet_Forward53_1DWithParity x even = Some (D.fwd53 even x) /\
+  jpeg2000_wavelet_Inverse53_1DWithParity x even = Some (D.inv53 even x).
+Proof. exact tie_dwt53_partial. Qed.
+Print Assumptions C20_tie_dwt53_1d.
+
+Theorem C20_tie_dwt53_1d_panics : forall even x, D.dwt1d_panics even x = true ->
+  jpeg2000_wavelet_Forward53_1DWithParity x even = None /\ jpeg2000_wavelet_Inverse53_1DWithParity x even = None.
+Proof. exact tie_dwt53_panics. Qed.
+Print Assumptions C20_tie_dwt53_1d_panics.
+
+Example C20_tie_dwt53_1d_instance :
+  Forall (fun v => - 2 ^ 28 <= v < 2 ^ 28) [5; -3; 268435455; -268435456; 7; 0; 1] /\
+  D.dwt1d_panics false [5; -3; 268435455; -268435456; 7; 0; 1] = false /\
+  zlen [5; -3; 268435455; -268435456; 7; 0; 1] < 2 ^ 31.
+Proof. split; [repeat constructor; lia | split; [reflexivity | vm_compute; reflexivity]]. Qed.
